@@ -103,14 +103,22 @@ class C18(Prop):
                     "heal:live", "tool:live", "swarm:reassigned"]
     assumptions = [
         "callbacks (generator, validator, worker factory, worker step, summarizer, provider, tool executor) return "
-        "or raise; they do not call back into the loop that is invoking them",
+        "or raise; they may assign the public attributes of the object that is running them (modelled: the attributes "
+        "are part of the adversary-visible state), but they do not call back into the loop that is invoking them "
+        "(re-entrant tools: search-only line retools)",
+        "callbacks do not assign confidence_decay while heal() runs (it is re-read at every attempt and only "
+        "influences the confidences reported, never a call)",
+        "tool_calls returned by the provider is a finite sequence; mitochondria.export_tool_schemas() returns",
         "worker outputs are ASCII strings in the correspondence (str.upper is CPython's); md5 prefixes are taken as "
         "injective on the outputs explored",
-        "the mitochondria seen by transcribe_with_tools is a stub exposing export_tool_schemas/execute_tool_call",
+        "the mitochondria seen by transcribe_with_tools is the real Mitochondria around a scripted tool function for "
+        "~40% of the tool cases and a stub exposing export_tool_schemas/execute_tool_call otherwise",
         "wording of error-context / tool-result prompts is not compared, only the nonces they carry",
     ]
     trusted_modelled = ["modelled, not verified: ChaperoneLoop.heal, RegenerativeSwarm.supervise/_run_worker, "
-                        "Nucleus.transcribe_with_tools as Operon.Loops.heal/supervise/transcribeWithTools; "
+                        "Nucleus.transcribe_with_tools as Operon.Loops.heal/supervise+superviseL/transcribeWithTools "
+                        "(tied to the source by the differential correspondence and by the decision tables of "
+                        "Gen/LoopTables.lean evaluated on the real classes on every run); "
                         "float confidence/entropy arithmetic is a parameter of the model (IEEE doubles in the driver)"]
 
     # --- setup -------------------------------------------------------------------------------------------------
